@@ -112,6 +112,11 @@ def rescale(case, ctx):
     ctx.nontrivial_if(s != 1)
     with lentil_call("C17.build", "plane"):
         p = make_plane(case, amp, opd, mask)
+    if case["seed"] % 3 == 0:
+        # the plane has already been used (multiplied into a wavefront) before it is resampled
+        ctx.tag("used_before")
+        with lentil_call("C17.pre_use", "Wavefront * plane before rescaling"):
+            lentil.Wavefront(wl) * p
     before = snapshot(p)
     with lentil_call("C17.rescale", f"{'resample' if case['via_resample'] else 'rescale'}(s={s})"):
         if case["via_resample"]:
@@ -213,6 +218,93 @@ def resample_refusals(case, ctx):
                       "resample of a plane without pixel scale")
     if not np.array_equal(np.asarray(p.amplitude), amp):
         raise Violation("C17.resample.refuse_mutates", "refused resample changed the plane")
+
+
+# --- segments that share boundary samples -----------------------------------------------------------------------
+
+@st.composite
+def shared_case(draw, tier):
+    m, n = shape = draw(gen.shape2(16, 30))
+    yy, xx = np.mgrid[0:m, 0:n]
+    rad = draw(gen.finite(0.3, 0.48))
+    sup = (((yy - m / 2 + 0.5) / (rad * m)) ** 2 + ((xx - n / 2 + 0.5) / (rad * n)) ** 2 <= 1)
+    kind = draw(st.sampled_from(["stripes_r", "stripes_c", "quadrants", "voronoi"]))
+    k = draw(st.integers(2, 4))
+    lab = np.zeros(shape, dtype=int)
+    if kind == "stripes_r":
+        lab = 1 + (yy * k // m)
+    elif kind == "stripes_c":
+        lab = 1 + (xx * k // n)
+    elif kind == "quadrants":
+        lab = 1 + (yy >= m // 2) * 2 + (xx >= n // 2)
+        k = 4
+    else:
+        pts = [(draw(gen.finite(0.2, 0.8)) * m, draw(gen.finite(0.2, 0.8)) * n) for _ in range(k)]
+        d = np.stack([(yy - a) ** 2 + (xx - b) ** 2 for a, b in pts])
+        lab = 1 + np.argmin(d, axis=0)
+    lab = lab * sup
+    return {"shape": list(shape), "labels": lab, "kind": kind, "grow": draw(st.sampled_from([1, 1, 2])),
+            "scale": draw(st.sampled_from([1, 1, 2, 0.5, 1.5, 3, 0.75, 1.3, 2.5])), "via_resample": draw(st.booleans()),
+            "used_before": draw(st.booleans()), "seed": draw(st.integers(0, 2**31 - 1))}
+
+
+@hyp("C17", "shared_samples", lambda tier: shared_case(tier),
+     "segment masks that share boundary samples (abutting segments grown by 1-2 samples, as antialiased hexagon "
+     "segments do): rescale(1) is the identity; for every factor the segment count, order and binarity are kept and "
+     "each rescaled segment mask is what the same segment gives when it is the plane's only mask",
+     examples=(150, 600), budget_s=(150, 600))
+def shared_samples(case, ctx):
+    lab = case["labels"]
+    m, n = case["shape"]
+    s = case["scale"]
+    vals = [v for v in range(1, int(lab.max()) + 1) if np.count_nonzero(lab == v) >= 9]
+    if len(vals) < 2:
+        raise Skip("fewer_than_two_segments")
+    sup = lab != 0
+    segs = []
+    for v in vals:
+        b = lab == v
+        for _ in range(case["grow"]):
+            p_ = np.pad(b, 1)
+            b = (p_[1:-1, 1:-1] | p_[:-2, 1:-1] | p_[2:, 1:-1] | p_[1:-1, :-2] | p_[1:-1, 2:]) & sup
+        segs.append(b.astype(int))
+    if not all(gen.has_block(sg, max(2, int(np.ceil(2 / s)) + 1)) for sg in segs):
+        raise Skip("segment_not_resolved_on_the_new_grid")
+    mask = np.stack(segs)
+    shared = int(np.count_nonzero(mask.sum(axis=0) > 1))
+    yy, xx = np.mgrid[0:m, 0:n]
+    amp = np.exp(-((yy - m / 2) ** 2 + (xx - n / 2) ** 2) / (2 * (0.35 * max(m, n)) ** 2)) * sup
+    ps = 2e-3
+    ctx.tag("kind:" + case["kind"], f"k:{len(vals)}", f"s:{s}", "resample" if case["via_resample"] else "rescale",
+            "shared>0" if shared else "disjoint", "used_before" if case["used_before"] else None)
+    ctx.nontrivial_if(shared > 0)
+    with lentil_call("C17.shared.build", f"Pupil with {len(vals)} segments sharing {shared} samples"):
+        p = lentil.Pupil(amplitude=amp.copy(), opd=np.zeros((m, n)), mask=mask.copy(), pixelscale=ps, focal_length=5.0)
+        if case["used_before"]:
+            lentil.Wavefront(1e-6) * p
+    pm0 = np.asarray(p.mask).copy()
+    with lentil_call("C17.shared.rescale", f"{'resample' if case['via_resample'] else 'rescale'}(s={s})"):
+        q = p.resample(ps / s) if case["via_resample"] else p.rescale(s)
+    qm = np.asarray(q.mask)
+    want = (int(np.ceil(m * s)), int(np.ceil(n * s)))
+    if qm.ndim != 3 or qm.shape[0] != len(vals) or qm.shape[1:] != want:
+        raise Violation("C17.shared.structure", f"mask of shape {qm.shape} after rescale(s={s}) of a {mask.shape} segmented mask")
+    if not np.all((qm == 0) | (qm == 1)):
+        raise Violation("C17.shared.binary", "rescaled mask is not binary")
+    if not np.array_equal(np.asarray(p.mask), pm0):
+        raise Violation("C17.original_mutated", "rescale changed the original plane's mask")
+    if s == 1 and not np.array_equal(qm != 0, pm0 != 0):
+        raise Violation("C17.shared.identity", f"rescale(1) changed {int(np.count_nonzero((qm != 0) != (pm0 != 0)))} mask samples of a plane "
+                                               f"whose {len(vals)} segments share {shared} samples")
+    # each segment on its own
+    for i, sg in enumerate(segs):
+        with lentil_call("C17.shared.alone", f"segment {i} as the only mask"):
+            one = lentil.Pupil(amplitude=amp.copy(), opd=np.zeros((m, n)), mask=sg.copy(), pixelscale=ps, focal_length=5.0)
+            qo = np.asarray((one.resample(ps / s) if case["via_resample"] else one.rescale(s)).mask)
+        if not np.array_equal(qm[i] != 0, qo != 0):
+            raise Violation("C17.shared.segment", f"segment {i} of {len(vals)} after rescale(s={s}) differs in "
+                                                  f"{int(np.count_nonzero((qm[i] != 0) != (qo != 0)))} samples from the same segment rescaled "
+                                                  f"as a plane's only mask ({shared} samples shared between segments)")
 
 
 # --- planes with hundreds of segments ---------------------------------------------------------------------------
